@@ -40,6 +40,10 @@ def static_desc(rng):
                                            (keys[(a + 2) % len(keys)], Fr(5), Fr(700 + k))]})
     desc["glyphs"].append({"name": "basemk", "unicodes": [0x65], "width": 500, "contours": [], "components": [],
                            "anchors": [(kk, Fr(100 + 7 * j), Fr(600 - 50 * j)) for j, kk in enumerate(keys)]})
+    # a contextual anchor: "*<key>" with an identifier that keys a GPOS_Context entry in the glyph's public.objectLibs
+    bm = desc["glyphs"][-1]
+    bm["anchors"].append(("*" + keys[0], Fr(140), Fr(650), "CTX-ANCHOR-1"))
+    bm["lib"] = {"public.objectLibs": {"CTX-ANCHOR-1": {"GPOS_Context": "%s *" % names[0]}}}
     names = [g["name"] for g in desc["glyphs"]]
     desc["lib"]["public.openTypeCategories"].update({n: "mark" for n in names if n.startswith("mk")})
     desc["lib"]["public.openTypeCategories"]["basemk"] = "base"
@@ -105,7 +109,9 @@ def main():
                 out["var%d/%s/vcff2-first" % (i, lib)] = sha(ufo2ft.compileVariableCFF2(ds2))
         # fixtures
         data = os.path.join(os.environ.get("UFO2FT_REPO", "/repo"), "tests", "data")
-        for name in (["TestFont.ufo", "TestMathFont-Regular.ufo", "ColorTest.ufo"] if mode == "thorough" else ["TestFont.ufo", "TestMathFont-Regular.ufo"]):
+        for name in (["TestFont.ufo", "TestMathFont-Regular.ufo", "ContextualAnchorsTest-Regular.ufo", "ColorTest.ufo", "MultipleAnchorClasses.ufo",
+                      "CantarellAnchorPropagation.ufo"] if mode == "thorough" else
+                     ["TestFont.ufo", "TestMathFont-Regular.ufo", "ContextualAnchorsTest-Regular.ufo"]):
             import ufoLib2, defcon
             for lib, opener in (("ufoLib2", ufoLib2.Font.open), ("defcon", defcon.Font)):
                 f = opener(os.path.join(data, name))
@@ -114,6 +120,11 @@ def main():
                     out["fixture/%s/%s/ttf-second" % (name, lib)] = sha(ufo2ft.compileTTF(f))
                 except Exception as e:
                     out["fixture/%s/%s/ttf-second" % (name, lib)] = "raised %s" % type(e).__name__
+                if "Color" not in name:      # (colour layers: known finding F4, judged on the second call)
+                    try:
+                        out["fixture/%s/%s/ttf-inplace" % (name, lib)] = sha(ufo2ft.compileTTF(opener(os.path.join(data, name)), inplace=True))
+                    except Exception as e:
+                        out["fixture/%s/%s/ttf-inplace" % (name, lib)] = "raised %s" % type(e).__name__
     finally:
         shutil.rmtree(work, ignore_errors=True)
     print(json.dumps(out))
